@@ -14,6 +14,8 @@
 //!   valid <hex>                            prost decode of a payload (canonical re-encoding)
 //!   stream <max> <hex> <sizes> <mode>      read_network_message loop over a fragmenting reader
 //!   sreader <max> <hex> <sizes> <mode>     the real SessionReader actor over the same reader
+//!   live <max> <close|hold> <hex>          a live NodeServer with an authenticated link to a second node
+//!                                          and two raw inbound sessions; <hex> is written into one of them
 //! stdout: one Coq-syntax term per case.
 use std::alloc::{GlobalAlloc, Layout, System};
 use std::panic::{catch_unwind, AssertUnwindSafe};
@@ -21,7 +23,7 @@ use std::pin::Pin;
 use std::sync::atomic::{AtomicUsize, Ordering};
 use std::sync::{Arc, Mutex};
 use std::task::{Context, Poll};
-use std::time::{Duration, SystemTime, UNIX_EPOCH};
+use std::time::{Duration, UNIX_EPOCH};
 
 use ractor::factory::{Job, JobOptions};
 use ractor::message::SerializedMessage;
@@ -449,16 +451,16 @@ fn show_opts(v: (u128, Option<u128>)) -> String {
     )
 }
 
-fn start_ns() -> u128 {
-    static START: std::sync::OnceLock<u128> = std::sync::OnceLock::new();
-    *START.get_or_init(|| SystemTime::now().duration_since(UNIX_EPOCH).unwrap().as_nanos())
-}
-
-/// decoded options: a submit time not before this process started can only be the
-/// `Default` branch of `JobOptions::from_bytes` (generated submit times are older)
+/// decoded options: the `Default` branch of `JobOptions::from_bytes` stamps the submit time with
+/// the same "now" as the factory time; a decoded submit time is years away from it
+/// (generated submit times are older than 2021)
 fn show_jdec(o: &JobOptions) -> String {
     let v = opts_view(o);
-    if v.0 >= start_ns() {
+    let gap = match o.factory_time().duration_since(o.submit_time()) {
+        Ok(d) => d,
+        Err(e) => e.duration(),
+    };
+    if gap < Duration::from_secs(60) {
         "JDefault".to_string()
     } else {
         format!("(JOpts {})", show_opts(v))
@@ -762,6 +764,129 @@ async fn sreader(max: u64, data: Vec<u8>, sizes: &str, mode: &str) -> String {
 }
 
 // ---------------------------------------------------------------------------------------
+// live node: a bad frame closes that session only
+
+struct Duplex {
+    stream: tokio::io::DuplexStream,
+    label: String,
+}
+impl ractor_cluster::ClusterBidiStream for Duplex {
+    fn split(self: Box<Self>) -> (ractor_cluster::BoxRead, ractor_cluster::BoxWrite) {
+        let (r, w) = tokio::io::split(self.stream);
+        (Box::new(r), Box::new(w))
+    }
+    fn peer_label(&self) -> Option<String> {
+        Some(self.label.clone())
+    }
+    fn local_label(&self) -> Option<String> {
+        Some(format!("local-{}", self.label))
+    }
+}
+
+struct LiveSub(Log);
+impl ractor_cluster::NodeEventSubscription for LiveSub {
+    fn node_session_opened(&self, s: ractor_cluster::node::NodeServerSessionInformation) {
+        self.0 .0.lock().unwrap().push(format!("opened {}", s.peer_addr));
+    }
+    fn node_session_disconnected(&self, s: ractor_cluster::node::NodeServerSessionInformation) {
+        self.0 .0.lock().unwrap().push(format!("disconnected {}", s.peer_addr));
+    }
+    fn node_session_authenticated(&self, _: ractor_cluster::node::NodeServerSessionInformation) {}
+    fn node_session_ready(&self, s: ractor_cluster::node::NodeServerSessionInformation) {
+        self.0 .0.lock().unwrap().push(format!("ready {}", s.peer_addr));
+    }
+}
+
+async fn live(max: u64, how: &str, data: Vec<u8>) -> String {
+    use ractor_cluster::{NodeServer, NodeServerMessage, NodeSessionMessage};
+    use tokio::io::AsyncWriteExt;
+    let mk = |name: &str| {
+        NodeServer::new(0, "cookie".to_string(), name.to_string(), "host".to_string(), None, None)
+            .with_max_inbound_frame_size(max.max(4096))
+    };
+    // (the limit applies to every session of the node; it is kept >= 4096 so the handshake fits)
+    let (Ok((a, ah)), Ok((b, bh))) = (Actor::spawn(None, mk("a"), ()).await, Actor::spawn(None, mk("b"), ()).await) else {
+        return "(false, false, false, true, true)".to_string();
+    };
+    let log = Log::default();
+    a.cast(NodeServerMessage::SubscribeToEvents { id: "h".to_string(), subscription: Box::new(LiveSub(log.clone())) })
+        .expect("subscribe");
+    let _ = ractor::call_t!(a, NodeServerMessage::GetSessions, 1_000);
+    let _ = ractor::call_t!(b, NodeServerMessage::GetSessions, 1_000);
+    let seen = |what: &str| log.0.lock().unwrap().iter().any(|e| e == what);
+    // authenticated link a <-> b
+    let (la, lb) = tokio::io::duplex(64 * 1024);
+    a.cast(NodeServerMessage::ConnectionOpenedExternal { stream: Box::new(Duplex { stream: la, label: "link".into() }), is_server: true })
+        .expect("open");
+    b.cast(NodeServerMessage::ConnectionOpenedExternal { stream: Box::new(Duplex { stream: lb, label: "link-b".into() }), is_server: false })
+        .expect("open");
+    for _ in 0..2000 {
+        if seen("ready link") {
+            break;
+        }
+        settle().await;
+    }
+    let link_ready_before = seen("ready link");
+    // two raw inbound sessions
+    let (r1a, mut r1) = tokio::io::duplex(64 * 1024);
+    let (r2a, r2) = tokio::io::duplex(64 * 1024);
+    a.cast(NodeServerMessage::ConnectionOpenedExternal { stream: Box::new(Duplex { stream: r1a, label: "raw1".into() }), is_server: true })
+        .expect("open");
+    a.cast(NodeServerMessage::ConnectionOpenedExternal { stream: Box::new(Duplex { stream: r2a, label: "raw2".into() }), is_server: true })
+        .expect("open");
+    for _ in 0..200 {
+        if seen("opened raw1") && seen("opened raw2") {
+            break;
+        }
+        settle().await;
+    }
+    let _ = r1.write_all(&data).await;
+    let _ = r1.flush().await;
+    if how == "close" {
+        let _ = r1.shutdown().await;
+    }
+    for _ in 0..400 {
+        if seen("disconnected raw1") {
+            break;
+        }
+        settle().await;
+    }
+    for _ in 0..50 {
+        settle().await;
+    }
+    let raw1_closed = seen("disconnected raw1");
+    let others_closed = seen("disconnected raw2") || seen("disconnected link");
+    // the node server still answers, still lists the authenticated link, and that session is ready
+    let sessions = ractor::call_t!(a, NodeServerMessage::GetSessions, 1_000);
+    let (server_ok, link_ready) = match sessions {
+        Ok(m) => {
+            let mut ready = false;
+            for s in m.values() {
+                if s.peer_addr == "link" {
+                    ready = ractor::call_t!(s.actor, NodeSessionMessage::GetReadyState, 1_000).unwrap_or(false);
+                }
+            }
+            (true, ready)
+        }
+        Err(_) => (false, false),
+    };
+    drop(r2);
+    drop(r1);
+    a.stop(None);
+    b.stop(None);
+    let _ = ah.await;
+    let _ = bh.await;
+    format!(
+        "({}, {}, {}, {}, {})",
+        coq_bool(link_ready_before),
+        coq_bool(raw1_closed),
+        coq_bool(others_closed),
+        coq_bool(server_ok),
+        coq_bool(link_ready)
+    )
+}
+
+// ---------------------------------------------------------------------------------------
 
 async fn one(line: &str) -> String {
     let w: Vec<&str> = line.split_whitespace().collect();
@@ -814,13 +939,13 @@ async fn one(line: &str) -> String {
             }
         }
         ("stream", _) => stream(w[1].parse().expect("max"), unhex(w[2]), w[3], w.get(4).copied().unwrap_or("ready")).await,
+        ("live", _) => live(w[1].parse().expect("max"), w[2], unhex(w.get(3).copied().unwrap_or("-"))).await,
         ("sreader", _) => sreader(w[1].parse().expect("max"), unhex(w[2]), w[3], w.get(4).copied().unwrap_or("ready")).await,
         other => panic!("unknown case {other:?}"),
     }
 }
 
 fn main() {
-    let _ = start_ns();
     // panics of the code under test are expected and caught; only report the harness's own
     std::panic::set_hook(Box::new(|info| {
         let own = info.location().map(|l| l.file().ends_with("eng_codec.rs")).unwrap_or(false);
